@@ -6,6 +6,7 @@ import verif as V
 PROP = "C09"
 PROPS = "props/C09.v"
 PROPS_B = "props/C09b.v"
+PROPS_C = "props/C09c.v"
 MODEL_DEPS = ["c09/Run.v"]
 
 
@@ -30,7 +31,7 @@ def corpus_file():
 
 
 def hexsrc(line):
-    m = re.match(r"^\((?:lex|ops) \(h([0-9a-f ]*)\)", line)
+    m = re.match(r"^\((?:lex|ops|full|parse) \(h([0-9a-f ]*)\)", line)
     if not m:
         return None
     return bytes.fromhex(m.group(1).replace(" ", ""))
@@ -60,6 +61,11 @@ def run(tier, seed, explicit=None):
         "the order open; the gc compiler does, and the lex stream would show otherwise)",
         "json.Unmarshal never fails on a string literal whose escapes scanString has validated (tokInvalid from "
         "unquote is not modelled; token kinds are compared on every generated string)",
+        "C09c: the decoded value of a string token is encoding/json's unquoteBytes as transcribed in coq/c09/Unquote.v "
+        "and encoder.encodeString as transcribed in coq/c09/Printer.v (standard-library behaviour: utf8 validity, "
+        "surrogate pairs); both are compared with the implementation on every string of the full stream",
+        "C09c: the semantic value of a token is what Lex stores in lval (token text, text[1:] for tokIndex, unquoted "
+        "string, operator) — hand transcription in coq/c09/ParseFull.v tokval, compared through the ASTs",
     ]
     ok, log = V.regen(["grammar", "yytables"])
     if not ok:
@@ -121,14 +127,49 @@ def run(tier, seed, explicit=None):
             for line, verdict in mism[:10]:
                 c.broken_correspondence("c09lex", "lex " + show(line), "model verdict: %s; implementation: %s" % (verdict, line[:600]))
         n_lex = st_lex.get("lines", 0)
+    # ---- C09c: gojq.Parse and Query.String() for the FULL grammar against the parser model (goyacc driver over the
+    # tables of the current parser.go + the transcribed actions of parser.go.y + Lexer.v) and the printer model
+    # (every writeTo of query.go); on every accepted case also the model-level round trip
+    # parse_prog (print_prog ast) = ast.  Finite theorems over the real tables: coq/props/C09c.v (cached by .vo).
+    proved = c.prove(PROPS_C) and proved
+    st_full, n_full = {}, 0
+    exe_c, clog = V.build_model("c09c", "extract/ExtractC09c.v", "c09cmodel", deps=["c09/RunFull.v"])
+    if exe_c is None:
+        c.broken_correspondence("model-extraction c09c", None, V.tail(clog, 40))
+    else:
+        rc, out, cases, st_full = V.run_harness("c09", "full", seed, 400 if quick else 6000, tier,
+                                                extra=([e.hex() for e in explicit] if explicit else ["corpus=" + corpus]),
+                                                name="c09full")
+        if rc != 0:
+            c.broken_correspondence("harness-run full", None, V.tail(out, 40))
+        else:
+            mism = V.compare_model(c, exe_c, cases, "c09full")
+            for line, verdict in mism[:8]:
+                # replay on the implementation: its own oracles (roundtrip: Parse(q.String()) DeepEqual q, respace,
+                # error offset/token) decide whether the property is violated on this source
+                src = hexsrc(line)
+                found = []
+                if src is not None:
+                    rc2, _, _, st2 = V.run_harness("c09", "one", seed, 0, tier, extra=[src.hex()], name="c09replay")
+                    found = (st2.get("impl_violations") or []) if rc2 == 0 else []
+                if found:
+                    case, details = split_violation(found[0])
+                    c.failing_input("implementation-only oracle (replay of a full-grammar model mismatch)", case,
+                                    details + " ;; model verdict: " + verdict[:300])
+                else:
+                    c.broken_correspondence("c09full", "full " + show(line),
+                                            "model verdict: %s; implementation: %s" % (verdict[:600], line[:600]))
+            n_full = st_full.get("lines", 0)
     for v in impl_viol[:20]:
         case, details = split_violation(v)
         c.failing_input("implementation-only oracle", case, details)
     rule = ("ops: all 24 + 24^2 x3 (plain, left-parenthesised, right-parenthesised) + 24^3 operator strings around atoms "
             "and random deeper ones; lex/oracles: %d corpus strings of cli/test.yaml, ~%d hand-picked adjacency cases, "
             "generated programs of the full surface grammar, 2-6 re-spacings and 2-8 token/byte mutations of each, "
-            "random byte strings over a lexical alphabet; distinct = distinct case lines" % (ncorpus, 330))
-    return c.finish(rule, extra_cov=dict(harness_stats=dict(ops=st_ops, lex=st_lex)))
+            "random byte strings over a lexical alphabet; full: the same corpus/matrices/generated/re-spaced/mutated programs "
+            "and the print of every accepted one, AST + ParseError + String() bytes + model-level round trip against the "
+            "full-grammar parser and printer models; distinct = distinct case lines" % (ncorpus, 330))
+    return c.finish(rule, extra_cov=dict(harness_stats=dict(ops=st_ops, lex=st_lex, full=st_full)))
 
 
 def go_unquote(q):
